@@ -11,6 +11,7 @@ import math
 from .common import BaseHooks, V, finite, is_qmat, np, qalg, ref_request, round_sig, sub_rng
 
 PROP = "C12"
+CLOCKS = [[0.0], [1e-3, -3600.0, 1e6], [1e6], [-1.0], [5e-4, 0.0, 0.0, 7200.0], [1e-9]]
 WORLDS_QUICK = ("pkg", "flat")
 WORLDS_THOROUGH = ("pkg", "flat", "pkg_then_flat", "flat_then_pkg")
 SPECTRA = ("simple", "clustered", "repeated", "lowrank", "rank_eq_R", "geometric", "zero", "simple")
@@ -102,6 +103,8 @@ def gen_trace(seed, world, tier):
         else:
             steps.append({"k": "rng", "op": "seed", "v": R_.randrange(10 ** 6), "client": 1})
     call = {"k": "fn", "fn": fn, "args": [A, Rk], "kwargs": kw, "client": 2, "tags": tags}
+    if R_.random() < 0.1:
+        call["clock"] = R_.choice(CLOCKS)   # stalled / jumping / coarse clock: must not matter
     steps.append(call)
     x2 = R_.random()
     if x2 < 0.25:
